@@ -108,6 +108,10 @@ pub fn check_packed<O: Order4>(c: &mut Collector, v: u32) {
 
 const CHUNK_BITS: u32 = 20;
 
+/// At most this many failing values per 2^20-chunk go through the detailed (itemising) path;
+/// all failing values are still found and counted by the complete fast pass.
+const ITEMISE_PER_CHUNK: u64 = 8;
+
 pub fn packed_order<O: Order4>(ctx: &Ctx, total: &mut Collector) {
     let sub = format!("packed/{}", O::NAME);
     if !ctx.wants(&sub) {
@@ -115,10 +119,11 @@ pub fn packed_order<O: Order4>(ctx: &Ctx, total: &mut Collector) {
     }
     let t0 = std::time::Instant::now();
     let seed = ctx.seed;
-    let c = pv::par::run_chunks(1usize << (32 - CHUNK_BITS), |ci, c| {
+    let outs = pv::par::map_chunks(1usize << (32 - CHUNK_BITS), |ci| {
+        let mut c = Collector::new();
         let start = (ci as u32) << CHUNK_BITS;
         let len = 1u32 << CHUNK_BITS;
-        // fast pass over the chunk; any failure (or panic) sends the chunk through the detailed path
+        // complete fast pass over the chunk
         let fast = pv::catch(|| {
             let mut bad = 0u64;
             let mut nt = 0u64;
@@ -130,29 +135,46 @@ pub fn packed_order<O: Order4>(ctx: &Ctx, total: &mut Collector) {
             }
             (bad, nt)
         });
-        let nt = match fast {
-            Ok((0, nt)) => nt,
+        let (bad, nt) = match fast {
+            Ok((0, nt)) => (0, nt),
             _ => {
+                // something failed (or panicked): value by value, itemise the first few
                 let mut nt = 0;
+                let mut bad = 0u64;
                 for k in 0..len {
                     let v = start + k;
-                    check_packed::<O>(c, v);
                     let by = v.to_be_bytes();
                     nt += !(by[0] == by[1] && by[1] == by[2] && by[2] == by[3]) as u64;
+                    if pv::catch(|| packed_ok::<O>(v)) != Ok(true) {
+                        bad += 1;
+                        if bad <= ITEMISE_PER_CHUNK {
+                            check_packed::<O>(&mut c, v);
+                        }
+                    }
                 }
-                nt
+                (bad, nt)
             }
         };
         c.add(&sub, len as u64, OPS4 * len as u64, OPS4 * len as u64, nt);
         let v = start ^ (pv::splitmix(seed ^ ci as u64) as u32 & (len - 1));
-        let u: Srgba<u8> = Packed::<O, u32>::from(v).unpack();
-        c.outcome(pv::fnv(&[u.red, u.green, u.blue, u.alpha, O::POS[0] as u8]));
-        if ci % 512 == 3 {
-            c.sample(pv::splitmix(seed ^ v as u64), || json!({"sub": sub, "packed": h32(v), "unpacked": show4(&u), "repacked": h32(Packed::<O, u32>::pack(u).color)}));
+        if let Ok(u) = pv::catch(|| Packed::<O, u32>::from(v).unpack::<Srgba<u8>>()) {
+            c.outcome(pv::fnv(&[u.red, u.green, u.blue, u.alpha, O::POS[0] as u8]));
+            if ci % 512 == 3 {
+                c.sample(pv::splitmix(seed ^ v as u64), || json!({"sub": sub, "packed": h32(v), "unpacked": show4(&u), "repacked": h32(Packed::<O, u32>::pack(u).color)}));
+            }
         }
+        (c, bad)
     });
-    total.merge(c);
+    let mut failing = 0u64;
+    for (c, bad) in outs {
+        total.merge(c);
+        failing += bad;
+    }
     total.exhaustive(&sub, true, "all 2^32 packed u32 values (= all 2^32 Rgba<u8> colours): unpack gives each channel from its documented byte, pack gives the value back; Packed, ComponentOrder<u32>, ComponentOrder<[u8;4]> (big-endian), from_u32/into_u32 of Rgba and Rgb (alpha byte 0xFF), From conversions");
+    total.note(&format!("{sub}/failing-values"), json!(failing));
+    if failing > 0 {
+        total.note(&format!("{sub}/itemised"), json!(format!("violation counts itemise at most {ITEMISE_PER_CHUNK} failing values per 2^20 chunk; {failing} values fail in total")));
+    }
     total.note(&format!("wall_s/{sub}"), json!(t0.elapsed().as_secs_f64()));
 }
 
@@ -195,7 +217,8 @@ pub fn from_u32(ctx: &Ctx, total: &mut Collector) {
     if !ctx.wants(sub) {
         return;
     }
-    let c = pv::par::run_chunks(1usize << (32 - CHUNK_BITS), |ci, c| {
+    let outs = pv::par::map_chunks(1usize << (32 - CHUNK_BITS), |ci| {
+        let mut c = Collector::new();
         let start = (ci as u32) << CHUNK_BITS;
         let len = 1u32 << CHUNK_BITS;
         let fast = pv::catch(|| {
@@ -205,18 +228,39 @@ pub fn from_u32(ctx: &Ctx, total: &mut Collector) {
             }
             bad
         });
+        let mut bad = 0u64;
         if fast != Ok(0) {
             for k in 0..len {
                 let v = start + k;
-                if let Err(msg) = pv::catch(|| check_from_u32(c, v)) {
-                    c.violation("C12/packed/From<u32>/panic", 1.0, || json!({"sub": "from-u32", "input": h32(v), "observed": {"panic": msg}, "expected": "no panic"}));
+                if pv::catch(|| from_u32_ok(v)) != Ok(true) {
+                    bad += 1;
+                    if bad <= ITEMISE_PER_CHUNK {
+                        if let Err(msg) = pv::catch(|| check_from_u32(&mut c, v)) {
+                            c.violation("C12/packed/From<u32>/panic", 1.0, || json!({"sub": "from-u32", "input": h32(v), "observed": {"panic": msg}, "expected": "no panic"}));
+                        }
+                    }
                 }
             }
         }
         c.add(sub, len as u64, 4 * len as u64, 4 * len as u64, len as u64 - if ci == 0 { 1 } else { 0 });
+        if ci % 1024 == 5 {
+            let v = start | 0x607f;
+            c.outcome(pv::fnv(&u32::from(Srgb::<u8>::from(v)).to_be_bytes()));
+            c.sample(pv::splitmix(seed_of(ctx) ^ v as u64), || json!({"sub": sub, "input": h32(v), "Rgb::from": show3(&Srgb::<u8>::from(v)), "Rgba::from": show4(&Srgba::<u8>::from(v))}));
+        }
+        (c, bad)
     });
-    total.merge(c);
+    let mut failing = 0u64;
+    for (c, bad) in outs {
+        total.merge(c);
+        failing += bad;
+    }
     total.exhaustive(sub, true, "all 2^32 u32 values: Rgb<u8>::from(u32) reads 0xAARRGGBB and ignores AA, u32::from(Rgb<u8>) writes AA = 0xFF; Rgba<u8>::from(u32) / u32::from(Rgba<u8>) use 0xRRGGBBAA");
+    total.note(&format!("{sub}/failing-values"), json!(failing));
+}
+
+fn seed_of(ctx: &Ctx) -> u64 {
+    ctx.seed
 }
 
 // ---------------------------------------------------------------------------------------
